@@ -4,7 +4,7 @@ using namespace c16;
 VH_FAMILY(trace_tetra)
 {
   typedef Shape::Simplex<3> S;
-  Env<S> e; gen_env(c, e, 600);
+  Env<S> e; gen_env(c, e, 600, (c.k % 2) == 0); // every other case: re-oriented cells and general (non-parallelogram) boundary facets
   switch(c.rng.below(2))
   {
   case 0: run_trace<S, SL1>(c, e); break;
